@@ -974,7 +974,9 @@ class Case:
                     self._do(('werror', fault[1]))
             rest = random.Random(a['seed'] * 104729 + a['prefix'] * 31 + 7)
             second = a['second']
-            while self.steps < self.cap:
+            after = 0
+            while self.steps < self.cap and after < 600:
+                after += 1
                 if second is not None and second[0] <= 0:
                     if net.alive[second[1]]:
                         self._do(('crash', second[1], second[2]))
@@ -1010,8 +1012,11 @@ def oracles(case):
     if case.fault_at is None:
         return bad
     if not case.quiescent:
-        bad.append(('no-quiescence', f'{case.steps} transitions without '
-                    'reaching quiescence'))
+        v0 = a['fault'][1]
+        k0 = {1: 'manager', 2: 'worker'}[net.kind[v0]]
+        bad.append((f'no-quiescence:{k0}', 'the runtime still makes '
+                    'transitions 600 steps after the fault (the reaction never '
+                    'completes): last ' + str(case.trace[-3:])))
         return bad
     srv = net.server.s
     victim = a['fault'][1]
